@@ -70,6 +70,20 @@ async def sim_run_in_subprocess(location, command, capture_output, timeout):
     return None
 
 
+class _Capture(logging.Handler):
+    def emit(self, record):
+        sim = core.CURRENT
+        if sim is None:
+            return
+        exc = record.exc_info[1] if record.exc_info else None
+        if exc is None and isinstance(record.msg, BaseException):
+            exc = record.msg
+        where = core.repo_frame_of(exc.__traceback__) if exc is not None else None
+        if len(sim.errors) < 50:
+            sim.errors.append((type(exc).__name__ if exc is not None else None, where,
+                               str(record.getMessage())[:300]))
+
+
 def install():
     global _installed
     if _installed:
@@ -92,8 +106,13 @@ def install():
         )
     from streamflow.log_handler import logger
 
-    logger.setLevel(logging.CRITICAL + 10)
-    logger.disabled = True
+    # StreamFlow logs every swallowed exception with logger.exception(); capture those (only
+    # ERROR and above) so oracles can tell *why* a run failed. Never draws, never reads a clock.
+    for h in list(logger.handlers):
+        logger.removeHandler(h)
+    logger.propagate = False
+    logger.setLevel(logging.ERROR)
+    logger.addHandler(_Capture())
 
     from . import simsqlite
     import streamflow.persistence.sqlite as sq
